@@ -56,6 +56,8 @@ func faultKey(class string) string {
 		return "commit-after-failed-backend-map-write"
 	case class == "tcpcrt":
 		return "commit-after-failed-crt-list-write"
+	case class == "resp":
+		return "custom-response-lost-after-failed-write"
 	case class == "main" || strings.HasPrefix(class, "shard:"):
 		return "commit-after-failed-config-write"
 	case strings.HasPrefix(class, "reload"):
@@ -157,6 +159,18 @@ func corpus() []History {
 		out = append(out, History{Shards: 0, Inline: inline, Steps: []FStep{
 			fst(true, h01, b01, nil), fst(false, nil, nil, nil, "main"), fst(false, nil, nil, nil)}})
 	}
+	// the custom responses of the global config change and the file of one of them cannot be
+	// written: the retry (same full flag, empty batch) has to write them; then they go away
+	for _, inline := range []bool{true, false} {
+		rs := func(resp int, faults ...string) FStep {
+			s := fst(true, h01, b01, nil, faults...)
+			s.State.Resp = resp
+			return s
+		}
+		out = append(out, History{Shards: 3, Inline: inline, Steps: []FStep{rs(1), rs(2, "resp"), rs(2), rs(3, "resp"), rs(3, "resp"), rs(3), rs(0)}})
+		// the responses are new and the very first write of their files fails
+		out = append(out, History{Shards: 0, Inline: inline, Steps: []FStep{rs(0), rs(1, "resp"), rs(1)}})
+	}
 	// crash points: the controller restarts (after a failed update or not) over the same directories
 	for _, inline := range []bool{true, false} {
 		r := fst(true, h01, b01, nil)
@@ -221,6 +235,7 @@ type stepObs struct {
 	Written     []string
 	Disk        cfgsm.Disk
 	Running     string // canonical text of what the running haproxy loaded last
+	RunningNR   string // Running without the custom response files
 	Ops         []cfgsm.Op
 }
 
@@ -238,7 +253,8 @@ func runHistory(base string, h History) runResult {
 	defer master.Close()
 	e := cfgsm.NewEnv(base, "enva", cfgsm.Options{Shards: h.Shards, InlineReload: h.Inline, MasterSocket: sock})
 	running := ""
-	master.OnReload = func() { running = e.ReadDisk().Canon() }
+	runningNR := "" // the same without the custom response files, which the Coq model does not have
+	master.OnReload = func() { d := e.ReadDisk(); running, runningNR = d.Canon(), d.CanonNoResp() }
 	r := runResult{}
 	fail := func(key, what string) {
 		if r.Key == "" {
@@ -261,7 +277,7 @@ func runHistory(base string, h History) runResult {
 			e = cfgsm.NewEnv(base, "enva", cfgsm.Options{Shards: h.Shards, InlineReload: h.Inline, MasterSocket: sock, Keep: true})
 			e.Interner = in
 			env := e
-			master.OnReload = func() { running = env.ReadDisk().Canon() }
+			master.OnReload = func() { d := env.ReadDisk(); running, runningNR = d.Canon(), d.CanonNoResp() }
 			restarted = true
 			newInst = true
 			up = false
@@ -277,7 +293,7 @@ func runHistory(base string, h History) runResult {
 				}
 				fl = append(fl, f)
 			}
-			st.Faults = fl
+			st.Faults = cfgsm.EffectiveFaults(fl, st.State)
 		}
 		h.Steps[i] = st
 		ops := e.Sync(st.Step)
@@ -364,6 +380,7 @@ func runHistory(base string, h History) runResult {
 		}
 		o.Disk = e.ReadDisk()
 		o.Running = running
+		o.RunningNR = runningNR
 		o.LastFailed = e.LastFailed()
 		r.Obs = append(r.Obs, o)
 		where := fmt.Sprintf("step %d (%s sync, faults %v)", i, map[bool]string{true: "full", false: "partial"}[st.Full], st.Faults)
@@ -397,7 +414,7 @@ func runHistory(base string, h History) runResult {
 		if restarted && staleShardBackend(o.Disk, st.State) {
 			key = "restart-keeps-stale-shard-files"
 		}
-		if pendingFault != "" && reloadAfterFailure && o.Disk.Canon() != fresh {
+		if pendingFault != "" && pendingFault != "resp" && reloadAfterFailure && o.Disk.Canon() != fresh {
 			key = "failed-update-forgotten-after-queued-reload"
 		}
 		reloadAfterFailure = false
@@ -451,7 +468,7 @@ func phaseText(f string) string {
 		return "backend maps"
 	case f == "tcpcrt":
 		return "certificates lists"
-	case f == "main" || strings.HasPrefix(f, "shard:"):
+	case f == "main" || f == "resp" || strings.HasPrefix(f, "shard:"):
 		return "writing configuration"
 	}
 	return "reloading server"
